@@ -20,8 +20,8 @@ AxisOpts(r) == {NoneI, -1} \cup 0..(r - 1)
 LineLen(sh, a) == sh[Ax(IF a = NoneI THEN -1 ELSE a, Len(sh))]
 NOpts(name, L) ==
   \* (the longest lengths, whose O(n^2) reference sum dominates the cost, are left to Level >= 1)
-  IF C2R(name) THEN (IF L >= 2 THEN {NoneI} ELSE {}) \cup {n \in {L, 2 * L - 1, 2 * L - 2} \cup (IF Level = 0 THEN {} ELSE {2 * L + 1}) : n >= 1}
-  ELSE {NoneI} \cup {n \in {L - 1, L + 1} \cup (IF Level = 0 THEN {} ELSE {L + 3}) : n >= 1}
+  IF C2R(name) THEN (IF L >= 2 THEN {NoneI} ELSE {}) \cup {n \in {1, L, 2 * L - 1, 2 * L - 2} \cup (IF Level = 0 THEN {} ELSE {2 * L + 1}) : n >= 1}
+  ELSE {NoneI} \cup {n \in {1, L - 1, L + 1} \cup (IF Level = 0 THEN {} ELSE {L + 3}) : n >= 1}
 N1(name, L) == IF C2R(name) THEN 2 * L - 1 ELSE L + 1
 NNorm1(name, L) ==
   IF Level = 2 THEN NOpts(name, L) \X ({"none"} \cup Norms)
@@ -68,7 +68,14 @@ CasesN(name) ==
                           s |-> sn[1], axes |-> ax, norm |-> sn[2]] : sn \in SNorm(name, sh, ax)} :
                         ax \in AxesOpts(name, r)} : sh \in Shapes, k \in Kinds(name)}
 
-CaseSet == UNION {IF name \in Names1 THEN {cc \in Cases1(name) : Valid1(cc)} ELSE CasesN(name) : name \in Names}
+\* degenerate arguments: s = () and / or axes = () for the complex-to-complex 2-D / n-D transforms
+Degenerate(name) ==
+  IF name \notin {"fft2", "ifft2", "fftn", "ifftn"} THEN {}
+  ELSE {[name |-> name, sh |-> sh, kind |-> k, n |-> NoneI, axis |-> NoneI, s |-> sa[1], axes |-> sa[2], norm |-> "none"] :
+          sh \in {q \in Shapes : Len(q) >= 2}, k \in {"real", "complex"},
+          sa \in {<<EmptyT, <<>>>>, <<<<>>, EmptyT>>, <<EmptyT, EmptyT>>}}
+IsDegenerate(cc) == cc.s = EmptyT \/ cc.axes = EmptyT
+CaseSet == UNION {(IF name \in Names1 THEN {cc \in Cases1(name) : Valid1(cc)} ELSE CasesN(name)) \cup Degenerate(name) : name \in Names}
 
 WithX(cc) == [name |-> cc.name, x |-> Input(cc.sh, cc.kind), n |-> cc.n, axis |-> cc.axis,
               s |-> cc.s, axes |-> cc.axes, norm |-> cc.norm]
@@ -105,22 +112,28 @@ H(cc) == Size(cc.sh) + 3 * Len(cc.sh) + (IF cc.n = NoneI THEN 1 ELSE cc.n) + (IF
          + 2 * SumSeq(cc.s, 1) + 7 * Len(cc.axes) + SumSeq(cc.axes, 1) + 6 + NormIx(cc.norm) + NameIx(cc.name)
          + (IF cc.kind = "real" THEN 0 ELSE 3)
 \* range(a, b) can stand for a tuple only if it counts up by one
-RangeOK(q) == \A i \in 1..(Len(q) - 1) : q[i + 1] = q[i] + 1
+RangeOK(q) == q = EmptyT \/ \A i \in 1..(Len(q) - 1) : q[i + 1] = q[i] + 1
 CtOK(cc, ct) == IF cc.name \in Names1 THEN ct \in {"py", "nd64", "nd32"}
                 ELSE ct = "range" => (RangeOK(cc.s) /\ RangeOK(cc.axes))
 CtFix(cc, ct) == IF CtOK(cc, ct) THEN ct ELSE "py"
-MkCall(cc, dt, ct, cf) == [name |-> cc.name, sh |-> cc.sh, kind |-> cc.kind, n |-> cc.n, axis |-> cc.axis, s |-> cc.s,
-                           axes |-> cc.axes, norm |-> cc.norm, dt |-> dt, ct |-> ct, cf |-> cf]
+\* ck: what holds the input: a plain ndarray, an ndarray subclass, a np.memmap, a read-only array, an object whose
+\* __array__ hands out its own buffer
+MkCallK(cc, dt, ct, cf, ck) == [name |-> cc.name, sh |-> cc.sh, kind |-> cc.kind, n |-> cc.n, axis |-> cc.axis, s |-> cc.s,
+                                axes |-> cc.axes, norm |-> cc.norm, dt |-> dt, ct |-> ct, cf |-> cf, ck |-> ck]
+MkCall(cc, dt, ct, cf) == MkCallK(cc, dt, ct, cf, "ndarray")
+InputKinds == {"subclass", "memmap", "readonly", "arraylike"}
 NVar == IF Level = 0 THEN 2 ELSE 3
 Cycled(cc) == {MkCall(cc, DTs(cc.kind)[((H(cc) + 5 * k) % Len(DTs(cc.kind))) + 1],
                       CtFix(cc, Containers[((H(cc) + 2 * k) % 5) + 1]), (H(cc) + k) % 4) : k \in 0..(NVar - 1)}
 DefaultArgs(cc) == cc.n = NoneI /\ cc.axis = NoneI /\ cc.s = <<>> /\ cc.axes = <<>> /\ cc.norm = "none"
 DtSweep(cc) == IF DefaultArgs(cc) /\ cc.sh = <<2, 3>>
                THEN {MkCall(cc, DTs(cc.kind)[i], "py", 0) : i \in 1..Len(DTs(cc.kind))} ELSE {}
-FormSweep(cc) == IF cc.name \notin Names1 /\ cc.s # <<>> /\ Len(cc.s) < Len(cc.sh) /\ cc.norm = "none" /\ cc.kind = "real"
-                 THEN {MkCall(cc, "float64", Containers[i], cf) : i \in {j \in 1..5 : CtOK(cc, Containers[j])}, cf \in 0..3}
+KindSweep(cc) == IF DefaultArgs(cc) /\ cc.sh \in {<<2, 3>>, <<3, 4>>}
+                 THEN {MkCallK(cc, DTs(cc.kind)[1], "py", H(cc) % 2, ck) : ck \in InputKinds} ELSE {}
+FormSweep(cc) == IF IsDegenerate(cc) \/ (cc.name \notin Names1 /\ cc.s # <<>> /\ Len(cc.s) < Len(cc.sh) /\ cc.norm = "none" /\ cc.kind = "real")
+                 THEN {MkCall(cc, DTs(cc.kind)[1], Containers[i], cf) : i \in {j \in 1..5 : CtOK(cc, Containers[j])}, cf \in 0..3}
                  ELSE {}
-Calls(cc) == Cycled(cc) \cup DtSweep(cc) \cup FormSweep(cc)
+Calls(cc) == Cycled(cc) \cup DtSweep(cc) \cup FormSweep(cc) \cup KindSweep(cc)
 
 NoCall == [name |-> "none"]
 Init == TabInit /\ c \in CaseSet /\ out = Empty /\ done = FALSE /\ call = NoCall
